@@ -18,6 +18,7 @@
 //        -> f = BCShortestConnection(p1,p2), b = BCShortestConnection(p2,p1),
 //           g = getDist(bead0,bead1) with the two beads placed at p1,p2
 // No expectation is computed here.
+#include <cstring>
 #include <iostream>
 #include <memory>
 #include <sstream>
@@ -26,6 +27,7 @@
 
 #include <votca/csg/bead.h>
 #include <votca/csg/boundarycondition.h>
+#include <votca/csg/molecule.h>
 #include <votca/csg/topology.h>
 
 using namespace votca;
@@ -59,6 +61,17 @@ int main() {
     if (!is) throw std::runtime_error("driver: short matrix");
     return m;
   };
+  // beads 2,3 in one molecule, bead 4 in another: getDist must not depend on molecule membership
+  auto mkmols = [](Topology &t) {
+    Bead *m0 = t.CreateBead(Bead::spherical, "m0", "A", 1, 1.0, 0.0);
+    Bead *m1 = t.CreateBead(Bead::spherical, "m1", "A", 1, 1.0, 0.0);
+    Bead *n0 = t.CreateBead(Bead::spherical, "n0", "A", 2, 1.0, 0.0);
+    Molecule *ma = t.CreateMolecule("MA");
+    ma->AddBead(m0, "m0");
+    ma->AddBead(m1, "m1");
+    Molecule *mb = t.CreateMolecule("MB");
+    mb->AddBead(n0, "n0");
+  };
   while (std::getline(std::cin, line)) {
     ++seq;
     std::istringstream in(line);
@@ -71,6 +84,7 @@ int main() {
         top->RegisterBeadType("A");
         b0 = top->CreateBead(Bead::spherical, "a0", "A", 0, 1.0, 0.0);
         b1 = top->CreateBead(Bead::spherical, "a1", "A", 0, 1.0, 0.0);
+        mkmols(*top);
         std::cout << "ok" << std::endl;
       } else if (cmd == "box" || cmd == "setbox") {
         std::string req;
@@ -94,6 +108,7 @@ int main() {
           top->RegisterBeadType("A");
           b0 = top->CreateBead(Bead::spherical, "a0", "A", 0, 1.0, 0.0);
           b1 = top->CreateBead(Bead::spherical, "a1", "A", 0, 1.0, 0.0);
+          mkmols(*top);
         }
         if (req == "auto")
           top->setBox(m);  // default argument = typeAuto
@@ -109,6 +124,7 @@ int main() {
         top->RegisterBeadType("A");
         b0 = top->CreateBead(Bead::spherical, "a0", "A", 0, 1.0, 0.0);
         b1 = top->CreateBead(Bead::spherical, "a1", "A", 0, 1.0, 0.0);
+        mkmols(*top);
         std::cout << "type " << tname(top->getBoxType()) << std::endl;
       } else if (cmd == "copies") {
         Eigen::Vector3d p1, p2;
@@ -205,8 +221,25 @@ int main() {
         b0->setPos(p1);
         b1->setPos(p2);
         Eigen::Vector3d g = top->getDist(0, 1);
+        // the same two points as beads of ONE molecule (2,3) and of two different molecules (2,4): the first answer
+        // that differs bitwise from the free beads' one is reported in its place, with its name as a trailing token
+        const char *who = "free";
+        top->getBead(2)->setPos(p1);
+        top->getBead(3)->setPos(p2);
+        top->getBead(4)->setPos(p2);
+        Eigen::Vector3d gm = top->getDist(2, 3), gx = top->getDist(2, 4);
+        auto same = [](const Eigen::Vector3d &u, const Eigen::Vector3d &v) {
+          return std::memcmp(u.data(), v.data(), 3 * sizeof(double)) == 0;
+        };
+        if (!same(gm, g)) {
+          g = gm;
+          who = "same-molecule";
+        } else if (!same(gx, g)) {
+          g = gx;
+          who = "two-molecules";
+        }
         std::cout << "f " << f[0] << " " << f[1] << " " << f[2] << " b " << b[0] << " " << b[1] << " " << b[2]
-                  << " g " << g[0] << " " << g[1] << " " << g[2] << std::endl;
+                  << " g " << g[0] << " " << g[1] << " " << g[2] << " beads " << who << std::endl;
       } else {
         std::cout << "err unknown command" << std::endl;
       }
